@@ -82,49 +82,49 @@ func Twins(x []byte) []Twin {
 		poly uint32
 	}{{"CRC-32 (IEEE)", crc32.IEEE}, {"CRC-32C (Castagnoli)", crc32.Castagnoli}, {"CRC-32K (Koopman)", crc32.Koopman}} {
 		tab := crc32.MakeTable(t.poly)
-		add("equal "+t.name, affine(x, func(b []byte) uint64 { return uint64(crc32.Checksum(b, tab)) }))
+		add("the same "+t.name, affine(x, func(b []byte) uint64 { return uint64(crc32.Checksum(b, tab)) }))
 	}
 	for _, t := range []struct {
 		name string
 		poly uint64
 	}{{"CRC-64 (ISO)", crc64.ISO}, {"CRC-64 (ECMA)", crc64.ECMA}} {
 		tab := crc64.MakeTable(t.poly)
-		add("equal "+t.name, affine(x, func(b []byte) uint64 { return crc64.Checksum(b, tab) }))
+		add("the same "+t.name, affine(x, func(b []byte) uint64 { return crc64.Checksum(b, tab) }))
 	}
 	for _, w := range []int{1, 2, 4, 8} {
-		add("equal XOR of all "+[]string{"", "bytes", "16-bit words", "", "32-bit words", "", "", "", "64-bit words"}[w], affine(x, fold(w)))
+		add("the same XOR of all "+[]string{"", "bytes", "16-bit words", "", "32-bit words", "", "", "", "64-bit words"}[w], affine(x, fold(w)))
 	}
 	// two different bytes swapped: same byte sum, same multiset, same XOR
 	for i := 1; i < len(x); i++ {
 		if x[i] != x[0] {
 			y := append([]byte{}, x...)
 			y[0], y[i] = y[i], y[0]
-			add("same bytes in another order", y)
+			add("the same bytes in another order", y)
 			break
 		}
 	}
 	if len(x) > 1 {
 		y := append([]byte{}, x...)
 		y[len(y)-1] ^= 0x01
-		add("equal except for the last bit", y)
+		add("a difference only in the last bit", y)
 		z := append([]byte{}, x...)
 		z[0] ^= 0x80
-		add("equal except for the first bit", z)
+		add("a difference only in the first bit", z)
 		m := append([]byte{}, x...)
 		m[len(m)/2] ^= 0x10
-		add("equal except for one bit in the middle", m)
+		add("a difference only in one bit in the middle", m)
 	}
 	if len(x) > 4 {
 		y := append([]byte{}, x...)
 		for i := 4; i < len(y); i++ {
 			y[i] ^= 0x5a
 		}
-		add("equal in the first four bytes only", y)
+		add("only the first four bytes in common", y)
 		z := append([]byte{}, x...)
 		for i := 0; i < len(z)-4; i++ {
 			z[i] ^= 0x5a
 		}
-		add("equal in the last four bytes only", z)
+		add("only the last four bytes in common", z)
 	}
 	for i, c := range x {
 		if c == 0 && i+1 < len(x) {
@@ -133,7 +133,7 @@ func Twins(x []byte) []Twin {
 			if i+1 < len(y)-1 {
 				y[i+1] ^= 0xff
 			}
-			add("equal up to the first NUL byte", y)
+			add("the same bytes up to the first NUL", y)
 			break
 		}
 	}
